@@ -15,9 +15,12 @@
      DecodeOrder  decoding does not depend on the iteration order of the three maps
      IsoAgree     the two isomorphism searches (direct / refinement) agree, also on perturbed diagrams
      IsoSharp     the isomorphism test rejects a bumped phase, a flipped edge type, a moved vertex
-   MUT # "none" damages the document between Encode and Decode (the faults DESIGN.md lists for C13):
-   the configs MC_JsonG_mut_*.cfg must FAIL; they are sanity checks of the invariants, not part of
-   the plan. *)
+   RoundTripDen is evaluated for the layout "zero" only (coordinates do not enter the denotation).
+   MUT # "none" damages the document between Encode and Decode (the faults DESIGN.md lists for C13:
+   hadamard node without is_edge, input order from the map position, wire coordinates dropped, a
+   dangling virtual node).  Every plan config has MUT = "none"; with any other value (set it in a
+   copy of MC_JsonG_sc.cfg) RoundTripIso resp. NoPanicRT must FAIL: a sanity check of the
+   invariants done by hand, not part of the plan. *)
 EXTENDS Family, JsonG
 CONSTANTS SCN, CMS, MUT
 VARIABLES g, cm, mode, enc, dec       \* enc, dec: Encode / Decode results, computed once per diagram in B3
